@@ -4,6 +4,8 @@
    lemmas they restate, so they cannot drift from what is proved. *)
 From PowHsm Require Import Model.Cert.
 From PowHsm Require Import Proofs.CertProofs.
+From PowHsm Require Import Gen.Src.
+From PowHsm Require Import Proofs.SrcEquivCert.
 Open Scope N_scope.
 
 (* termination argument: the cycle check of _parse never needs more than |elements|+1 steps (pigeonhole on distinct visited names), so the model's fuel is never the reason it answers *)
@@ -147,5 +149,33 @@ Theorem C16_load_save_load :
            tbl_equiv (c_elems c) (c_elems c') /\
            (forall link : celem -> certifier -> bool, validate_all link c' = validate_all link c).
 Proof. exact (@load_save_load). Qed.
+
+(* the walk of the source, as translated, terminates with the model's verdict map within fuel = number of elements + 1 for every loaded certificate with string names (the fuel-exhausted outcome PStuck is excluded by the equation): version 1 *)
+Theorem C16_source_walk_total_v1 :
+  forall (link_ok : celem -> certifier -> bool) (value_of tweak_of : celem -> pr pv)
+           (root_pv : pv) (call_method : string -> pv -> list pv -> pr pv) 
+           (c : cert) (fuel : nat),
+         oracle_ok link_ok value_of tweak_of root_pv call_method ->
+         c_version c = 1%Z ->
+         str_named c ->
+         targets_resolve link_ok c ->
+         (S (Datatypes.length (c_elems c)) <= fuel)%nat ->
+         src_HSMCertificate__validate_and_get_values fuel call_method (cert_pv c) root_pv =
+         spec_results link_ok value_of tweak_of c (c_targets c) [].
+Proof. exact (@src_validate_v1_ok). Qed.
+
+(* version 2 *)
+Theorem C16_source_walk_total_v2 :
+  forall (link_ok : celem -> certifier -> bool) (value_of tweak_of : celem -> pr pv)
+           (root_pv : pv) (call_method : string -> pv -> list pv -> pr pv) 
+           (c : cert) (fuel : nat),
+         oracle_ok link_ok value_of tweak_of root_pv call_method ->
+         c_version c = 2%Z ->
+         str_named c ->
+         targets_resolve link_ok c ->
+         (S (Datatypes.length (c_elems c)) <= fuel)%nat ->
+         src_HSMCertificateV2__validate_and_get_values fuel call_method (cert_pv c) root_pv =
+         spec_results link_ok value_of tweak_of c (c_targets c) [].
+Proof. exact (@src_validate_v2_ok). Qed.
 
 Example C16_nonvacuous : True. Proof. exact I. Qed. (* Module Examples / Caveats of Proofs/CertProofs.v: self-signed, mutually signed, dangling signer, missing target rejected; duplicate name last-wins; version forms; v2_attkey_message_truncated exhibits the 385-byte message whose reload differs *)
